@@ -17,7 +17,11 @@ def pool(tier):
     return base
 
 
-def strategy(shapes, kinds=None, extra=None):
+def strategy(shapes, kinds=None, extra=None, far_mean=False):
+    """far_mean: in a quarter of the cases the mean of p(x) lies 1e4 / 1e6 standard deviations away from the origin (time
+    stamps, absolute positions).  Covariances, precisions and log-determinants of the results do not depend on the mean, so
+    they are still judged at their own scale; the property modules skip the log-density comparisons there (information-form
+    evaluation legitimately loses |mu|^2/sigma^2 * eps)."""
     kinds = kinds or gen.COND_KINDS
 
     @st.composite
@@ -47,6 +51,11 @@ def strategy(shapes, kinds=None, extra=None):
             case["x"] = np.asarray(case["x"], float) * g ** 0.5
             case["y"] = np.asarray(case["y"], float) * g ** 0.5
             case["unit_scale"] = g
+        if far_mean and draw(st.sampled_from([False, False, False, True])):
+            off = draw(st.sampled_from([1e4, 1e6])) * float(np.sqrt(sx))
+            d = draw(gen.arr((Rx, Dx), 0.5, 1.5)) * np.where(draw(gen.arr((Rx, Dx), -1, 1)) < 0, -1.0, 1.0)
+            case["px"]["mu"] = np.asarray(case["px"]["mu"], float) + off * d
+            case["far_mean"] = off
         if extra:
             extra(draw, case)
         return case
@@ -57,7 +66,7 @@ def strategy(shapes, kinds=None, extra=None):
 def labels(case):
     combo = "(1,1)" if case["Rc"] == 1 and case["Rx"] == 1 else ("(1,n)" if case["Rc"] == 1 else "(n,1)")
     reg = "Dx>Dy" if case["Dx"] > case["Dy"] else ("Dx=Dy" if case["Dx"] == case["Dy"] else "Dx<Dy")
-    return [f"kind={case['kind']}", f"combo={combo}", reg, f"ctor={case['c'].get('ctor')}", f"unit_scale={case.get('unit_scale', 1.0):g}"]
+    return [f"kind={case['kind']}", f"combo={combo}", reg, f"ctor={case['c'].get('ctor')}", f"unit_scale={case.get('unit_scale', 1.0):g}"] + (["far_mean"] if case.get("far_mean") else [])
 
 
 def nontrivial(case):
